@@ -8,7 +8,7 @@ from ..faults import FaultDB
 from ..hexcommon import item_lists, literal_keys, resolve_val, valspecs
 from ..ref.mpt import RefTrie
 from ..ref.rlp_hp import hp, rlp_encode
-from ..util import Info, Raised, cm_enter, cm_exit, expect, expect_eq, impl, nibbles_of
+from ..util import Info, Raised, as_nibbles, cm_enter, cm_exit, expect, expect_eq, impl, nibbles_of
 
 ID = "C08"
 LEVEL = "exploration"
@@ -112,11 +112,14 @@ _CARRIERS = [list, _as_nibbles, _as_deque, _as_array, _as_userlist, tuple]
 
 
 def _tt(x):
-    return tuple(int(i) for i in x)
+    return as_nibbles("well-formed-result", x, "nibbles in a traversal result")
 
 
 def _describe(node):
     """Plain-data view of a HexaryTrieNode returned by the implementation."""
+    expect("well-formed-result", all(hasattr(node, a) for a in ("node_type", "sub_segments", "value", "suffix", "raw"))
+           and hasattr(node.node_type, "name") and isinstance(node.value, (bytes, bytearray)),
+           lambda: f"got {node!r} instead of an annotated trie node")
     return {
         "type": node.node_type.name,
         "sub_segments": tuple(_tt(s) for s in node.sub_segments),
